@@ -420,28 +420,32 @@ ares_status_t ares_reinit(ares_channel_t *channel)
     return ARES_SUCCESS;
   }
   channel->reinit_pending = ARES_TRUE;
-  ares_channel_unlock(channel);
 
   if (ares_threadsafety()) {
-    /* clean up the prior reinit process's thread.  We know the thread isn't
-     * running since reinit_pending was false */
+    /* The thread handle is shared state: concurrent ares_reinit() callers (the
+     * application, or the event thread reacting to a configuration change)
+     * must only touch it while holding the channel lock, otherwise a handle
+     * can be joined while it is being written or be overwritten and leaked.
+     *
+     * Clean up the prior reinit process's thread.  We know the thread isn't
+     * running any more since reinit_pending was false, which it clears as its
+     * last action under the lock we now hold, so joining it cannot block. */
     if (channel->reinit_thread != NULL) {
       void *rv;
       ares_thread_join(channel->reinit_thread, &rv);
       channel->reinit_thread = NULL;
     }
 
-    /* Spawn a new thread */
+    /* Spawn a new thread.  It blocks on the channel lock before it applies
+     * anything, creating it does not. */
     status =
       ares_thread_create(&channel->reinit_thread, ares_reinit_thread, channel);
     if (status != ARES_SUCCESS) {
-      /* LCOV_EXCL_START: UntestablePath */
-      ares_channel_lock(channel);
-      channel->reinit_pending = ARES_FALSE;
-      ares_channel_unlock(channel);
-      /* LCOV_EXCL_STOP */
+      channel->reinit_pending = ARES_FALSE; /* LCOV_EXCL_LINE: UntestablePath */
     }
+    ares_channel_unlock(channel);
   } else {
+    ares_channel_unlock(channel);
     /* Threading support not available, call directly */
     ares_reinit_thread(channel);
   }
